@@ -94,6 +94,8 @@ func (p *Program) cg() *CG {
 			}
 			if callee := cc.StaticCallee(); callee != nil {
 				add(f, callee, ci)
+			} else if callee := closureInCell(cc.Value); callee != nil {
+				add(f, callee, ci)
 			}
 		})
 	}
@@ -133,4 +135,37 @@ func (p *Program) inPkg(f *ssa.Function) bool {
 		}
 	}
 	return false
+}
+
+// closureInCell resolves a call through a local variable that holds exactly one closure
+// (deliver := func(...){...}; later deliver(...), possibly from a nested closure).
+func closureInCell(v ssa.Value) *ssa.Function {
+	u, ok := v.(*ssa.UnOp)
+	if !ok {
+		return nil
+	}
+	addr := u.X
+	if fv, ok := addr.(*ssa.FreeVar); ok {
+		addr = freeVarBinding(fv)
+	}
+	al, ok := addr.(*ssa.Alloc)
+	if !ok {
+		return nil
+	}
+	var fn *ssa.Function
+	n := 0
+	for _, r := range referrersOf(al) {
+		if st, ok := r.(*ssa.Store); ok && st.Addr == ssa.Value(al) {
+			n++
+			if mc, ok := st.Val.(*ssa.MakeClosure); ok {
+				fn, _ = mc.Fn.(*ssa.Function)
+			} else if f2, ok := st.Val.(*ssa.Function); ok {
+				fn = f2
+			}
+		}
+	}
+	if n != 1 {
+		return nil
+	}
+	return fn
 }
